@@ -236,6 +236,84 @@ def poisonH : Handler := fun inp impl => do
   let tag := if !okText then tag ++ "/text-differs" else if !okTable then tag ++ "/table-differs" else tag
   return ({ model := m, agree := okText && okTable, spec, nontrivial := wanted.length ≥ 1 && (hostile || wanted.length ≥ 2), tag } : Verdict).toJson
 
+/-! ### c14.history -/
+
+def maxSlots : Nat := 8
+
+def evOf (j : Json) : Except String (Option Ev) := do
+  let slot := (j.getObjValAs? Int "slot").toOption.getD (-1)
+  if slot < 0 || slot ≥ (maxSlots : Int) then return none
+  let k := slot.toNat
+  match (j.getObjValAs? String "op").toOption.getD "" with
+  | "register" =>
+    match j.getObjVal? "reg" with
+    | .ok (.obj o) => do let r ← regOf (.obj o); return some (.register k r)
+    | _ => return none
+  | "deregister" => return some (.deregister k)
+  | "fail" => return some (.fail k)
+  | "pass" => return some (.pass k)
+  | _ => return none
+
+/-- remove one occurrence -/
+def removeOne (d : RouteDef) : List RouteDef → Option (List RouteDef)
+  | [] => none
+  | x :: xs => if x == d then some xs else (removeOne d xs).map (x :: ·)
+
+def removeAll : List RouteDef → List RouteDef → Option (List RouteDef)
+  | [], l => some l
+  | d :: ds, l => (removeOne d l).bind (removeAll ds)
+
+/-- the definitions read from the text are, as a multiset, between what the current registrations must have
+(`wanted`) and what they may have (`allowed`) -/
+def stepVerdict (env : Env) (pf : ParseFloat) (c : Cfg) (regs : List Reg) (step : Json) : Bool × String :=
+  let allIntents := (named regs).flatMap (intents c)
+  let wanted := (allIntents.filter (expressibleB env pf)).filterMap (wantDef pf)
+  let optional := (allIntents.filter (fun i => !expressibleB env pf i)).filterMap (wantDef pf)
+  match step.getObjVal? "error" with
+  | .ok e => (false, s!"update-lost:{errWhat e}")
+  | .error _ =>
+    let parsed : Option (List RouteDef) :=
+      match step.getObjValAs? (Array Json) "defs" with
+      | .ok a => (a.toList.mapM routeDef).toOption
+      | .error _ => none
+    match parsed with
+    | some defs =>
+      match removeAll wanted defs with
+      | none => (false, "current-registration-not-denoted")
+      | some extra =>
+        match removeAll extra optional with
+        | none => (false, "stale-or-foreign-command")
+        | some _ => (true, "ok")
+    | none => (false, "no-defs")
+
+def historyH : Handler := fun inp impl => do
+  let c := cfgOf inp
+  let o := oracleOf inp impl
+  let env := envOf o
+  let pf := pfOf o
+  let stepsJ := (inp.getObjValAs? (Array Json) "steps").toOption.getD #[]
+  let steps ← stepsJ.toList.mapM (fun st => do
+    let evs ← (st.getArr?.toOption.getD #[]).toList.mapM evOf
+    return evs.filterMap id)
+  let cats := catalogs [] steps
+  let texts := cats.map (fun cat => config env pf c (current cat))
+  let m := Json.mkObj [("steps", Json.arr (texts.map (fun t => Json.mkObj [("text", str t)])).toArray)]
+  let implSteps := ((impl.getObjValAs? (Array Json) "steps").toOption.getD #[]).toList
+  let implTexts := implSteps.map (fun st => getStrD st "text")
+  let agree := implTexts == texts
+  -- the property, step by step, on what fabio's own parser read from the implementation's text
+  let verdicts := (cats.zip implSteps).map (fun (cat, st) => stepVerdict env pf c (current cat) st)
+  let bad := verdicts.find? (fun v => !v.1)
+  let spec := bad.isNone && implSteps.length == cats.length
+  -- does the history contain a re-registration of a live instance that changes what must be emitted?
+  let rereg := (texts.zip (texts.drop 1)).any (fun (a, b) => a != b) &&
+    steps.any (fun evs => evs.any (fun e => match e with | .register _ _ => true | _ => false))
+  let tag := (match bad with
+    | some v => v.2
+    | none => if implSteps.length != cats.length then "step-count" else if rereg then "history" else "static") ++
+    (if agree then "" else "/text-differs")
+  return ({ model := m, agree, spec, nontrivial := rereg, tag } : Verdict).toJson
+
 /-! ### c14.expand, c14.quote -/
 
 def expandH : Handler := fun inp impl => do
@@ -280,5 +358,5 @@ def quoteH : Handler := fun inp impl => do
   return ({ model := str q, agree := okB && okChars, spec := true, nontrivial := escapes, tag } : Verdict).toJson
 
 def streams : List (String × Handler) :=
-  [("c14.build", buildH), ("c14.poison", poisonH), ("c14.expand", expandH), ("c14.quote", quoteH)]
+  [("c14.build", buildH), ("c14.poison", poisonH), ("c14.history", historyH), ("c14.expand", expandH), ("c14.quote", quoteH)]
 end Fabio.Driver.C14
